@@ -120,6 +120,7 @@ def run(chk: core.Check, tier: str, seed: int) -> None:
                 for op in OPS:
                     recs.append(impl.rec_find(jp, f"$.t[?value(@.r) {op} {lit(sp, a)}]", doc, edoc=edoc))
                     recs.append(impl.rec_find(jp, f"$.t[?{lit(sp, a)} {op} value(@.l)]", doc, edoc=edoc))
+    recs += common.inplace_edit_records(jp, common.ROOT_QUERIES)
     for r in recs:
         chk.nontrivial.add((tuple(r["q"]), str(r["doc"])[:300]))
     chk.sample({"query": core.dec_text(recs[5]["q"]), "doc": core.dec_value(recs[5]["doc"]), "locs": recs[5]["locs"]})
